@@ -139,13 +139,16 @@ class Check:
 
     # ------------------------------------------------------------ finishing
     def finish(self) -> int:
-        for name, minimum in self.floors.items():
-            got = self.counts.get(name, 0)
-            if got < minimum:
-                raise AnalysisError(f"instance floor not met for {name}: {got} < {minimum} "
-                                    f"(the rule no longer sees the sites it was written for)")
+        unmet = [f"instance floor not met for {name}: {self.counts.get(name, 0)} < {minimum} "
+                 f"(the rule no longer sees the sites it was written for)"
+                 for name, minimum in self.floors.items() if self.counts.get(name, 0) < minimum]
         known = load_known()
         fails = [o for o in self.obs if o.status == "fail"]
+        # a concrete violation is reported as such even when some rule lost its sites; an unmet floor alone is a broken
+        # analysis (exit 2), never a pass
+        if unmet and not any(match_known(known, self.pid, o.rule, o.key) is None for o in fails):
+            raise AnalysisError(unmet[0])
+        self.notes.extend(unmet)
         violations: list[Obligation] = []
         known_hits: list[tuple[Obligation, dict]] = []
         for o in fails:
